@@ -97,6 +97,10 @@ fn hist_direct(ctx: &Ctx, res: &mut PartResult, maxlen: usize) {
                         if got != want || h.count() != samples.len() as u64 {
                             res.violation("bucket-count-is-not-number-of-samples-le-bound", format!("bounds {:?} samples {:?} batching {:?}: buckets {:?} (count {}), expected {:?} (count {})", bounds, samples, comp, got, h.count(), want, samples.len()), json!({"bounds": bi, "samples": idx}));
                         }
+                        let want_sum: f64 = samples.iter().sum();
+                        if !(h.sum() == want_sum || (h.sum().is_nan() && want_sum.is_nan())) {
+                            res.violation("histogram-sum-is-not-sum-of-samples", format!("bounds {:?} samples {:?} batching {:?}: sum {} expected {}", bounds, samples, comp, h.sum(), want_sum), json!({"bounds": bi, "samples": idx}));
+                        }
                         let shape = (got.iter().map(|x| (*x, 0)).collect::<Vec<_>>(), h.count());
                         match &first {
                             None => first = Some(shape),
@@ -421,6 +425,129 @@ fn summary_part(ctx: &Ctx, res: &mut PartResult, maxlen: usize) {
     res.sample(json!({"buckets": "3x20s", "samples_t": [0, 19, 41], "snapshot_t": 61}));
 }
 
+/// The same window semantics through the builder: `set_bucket_duration` x `set_bucket_count` x `set_quantiles`
+/// -> `build_recorder` -> real handles -> `render()`, with quanta's clock overridden by a mock for the thread.
+fn summary_render(ctx: &Ctx, res: &mut PartResult, maxlen: usize) {
+    res.engine = "E3 sample timelines x render times through PrometheusBuilder (bucket duration/count) + render() under a mock quanta clock".into();
+    let mut states = vseq::States::new();
+    let values = [-2.5, 1.0, 3.5, 1e6];
+    let alpha = 0.0001f64;
+    // None = builder defaults, documented as 3 buckets of 20 s
+    for cfgd in [Some((3u32, 20u64)), Some((1, 10)), Some((2, 7)), None] {
+        let (count, d) = cfgd.unwrap_or((3, 20));
+        let w = count as u64 * d;
+        let mut times: Vec<u64> = vec![0, d - 1, d, d + d / 2 + 1, w - 1, w, w + 1, 2 * w - 1, 2 * w];
+        times.sort();
+        times.dedup();
+        for len in 0..=maxlen {
+            let mut idx = vec![0usize; len];
+            'seqs: loop {
+                if ctx.over_budget() {
+                    res.cap_hit = Some("wall budget".into());
+                    res.exhaustive = false;
+                    break;
+                }
+                for snap_i in idx.last().cloned().unwrap_or(0)..times.len() {
+                    res.executions += 1;
+                    let (clock, mock) = Clock::mock();
+                    let mut b = PrometheusBuilder::new().set_quantiles(&[0.0, 0.5, 1.0]).unwrap();
+                    if cfgd.is_some() {
+                        b = b.set_bucket_duration(Duration::from_secs(d)).unwrap().set_bucket_count(NonZeroU32::new(count).unwrap());
+                    }
+                    let rec = b.build_recorder();
+                    let mut samples: Vec<(u64, f64)> = Vec::new();
+                    let text = quanta::with_clock(&clock, || {
+                        let h = rec.register_histogram(&Key::from_name("s"), &META);
+                        let mut cur = 0u64;
+                        for (p, ti) in idx.iter().enumerate() {
+                            let t = times[*ti];
+                            mock.increment(Duration::from_secs(t - cur));
+                            cur = t;
+                            h.record(values[p]);
+                            samples.push((t, values[p]));
+                            res.transitions += 1;
+                        }
+                        let now = times[snap_i];
+                        mock.increment(Duration::from_secs(now - cur));
+                        rec.handle().render()
+                    });
+                    let now = times[snap_i];
+                    let replay = json!({"cfg": format!("{:?}", cfgd), "idx": idx, "snap": snap_i});
+                    let describe = || format!("builder buckets {:?} (window {}s), samples (t,value) {:?}, render at t={}", cfgd, w, samples, now);
+                    let fams = match promtext::parse(&text) {
+                        Ok(f) => f,
+                        Err(e) => {
+                            res.violation("malformed-exposition", format!("{} in {:?}", e, text), replay.clone());
+                            continue;
+                        }
+                    };
+                    let f = match fams.iter().find(|f| f.name == "s") {
+                        Some(f) => f,
+                        None => {
+                            res.violation("summary-sum-or-count-does-not-cover-all-samples", format!("{}: family missing", describe()), replay.clone());
+                            continue;
+                        }
+                    };
+                    if f.ty != "summary" {
+                        res.violation("histogram-or-summary-chosen-wrongly", format!("{}: family type {}", describe(), f.ty), replay.clone());
+                        continue;
+                    }
+                    let cnt: u64 = f.samples.iter().find(|x| x.name == "s_count").and_then(|x| x.value.parse().ok()).unwrap_or(u64::MAX);
+                    let sum: f64 = f.samples.iter().find(|x| x.name == "s_sum").map(|x| x.value_f64()).unwrap_or(f64::NAN);
+                    if cnt != samples.len() as u64 || sum != samples.iter().map(|x| x.1).sum::<f64>() {
+                        res.violation("summary-sum-or-count-does-not-cover-all-samples", format!("{}: count {} sum {}", describe(), cnt, sum), replay.clone());
+                    }
+                    let mut qs: Vec<(f64, f64)> = f.samples.iter().filter(|x| x.name == "s").filter_map(|x| Some((promtext::parse_value(x.label("quantile")?)?, x.value_f64()))).collect();
+                    qs.sort_by(|a, b| a.0.partial_cmp(&b.0).unwrap());
+                    states.add(&format!("{:?}", qs));
+                    if qs.iter().map(|q| q.0).collect::<Vec<_>>() != vec![0.0, 0.5, 1.0] {
+                        res.violation("summary-quantiles-not-as-configured", format!("{}: quantile lines {:?}", describe(), qs), replay.clone());
+                        continue;
+                    }
+                    let recent: Vec<f64> = samples.iter().filter(|x| x.0 + w > now).map(|x| x.1).collect();
+                    let recent2: Vec<f64> = samples.iter().filter(|x| x.0 + (w - d) > now).map(|x| x.1).collect();
+                    let all_zero = qs.iter().all(|q| q.1 == 0.0);
+                    if recent.is_empty() {
+                        if !all_zero {
+                            res.violation("summary-reflects-samples-older-than-window", format!("{}: quantiles {:?} although no sample is newer than now-W", describe(), qs), replay.clone());
+                        }
+                    } else {
+                        let lo = recent.iter().cloned().fold(f64::INFINITY, f64::min);
+                        let hi = recent.iter().cloned().fold(f64::NEG_INFINITY, f64::max);
+                        let tol = |x: f64| x.abs() * alpha * 2.0 + 1e-9;
+                        let inside = qs.iter().all(|q| q.1 >= lo - tol(lo) && q.1 <= hi + tol(hi));
+                        // samples in the oldest, partially expired slot may or may not still be held: then an empty window (all 0) is fine too
+                        if !(inside || (all_zero && recent2.is_empty())) {
+                            res.violation("summary-quantile-outside-window-range", format!("{}: quantiles {:?} outside [{}, {}] of the samples within the window", describe(), qs, lo, hi), replay.clone());
+                        }
+                    }
+                }
+                let mut p = len;
+                loop {
+                    if p == 0 {
+                        break 'seqs;
+                    }
+                    p -= 1;
+                    if idx[p] + 1 < times.len() {
+                        idx[p] += 1;
+                        for k in p + 1..len {
+                            idx[k] = idx[p];
+                        }
+                        break;
+                    }
+                }
+                if len == 0 {
+                    break;
+                }
+            }
+        }
+    }
+    res.states = states.len();
+    res.distinct_outcomes = states.len();
+    res.bound = json!({"max_samples": maxlen, "builder_configs": "3x20s, 1x10s, 2x7s, defaults (3x20s)"});
+    res.sample(json!({"builder": "set_bucket_duration(7s).set_bucket_count(2)", "samples_t": [0, 6], "render_t": 15, "expected": "quantiles 0 (window empty), _count 2"}));
+}
+
 fn parts(ctx: &Ctx) -> Vec<PartSpec> {
     let q = ctx.quick();
     let b = if q { 50.0 } else { 2400.0 };
@@ -429,6 +556,7 @@ fn parts(ctx: &Ctx) -> Vec<PartSpec> {
         PartSpec::new("histogram-render", json!({"p": "hr", "n": if q { 3 } else { 4 }})).budget(b),
         PartSpec::new("matchers", json!({"p": "m", "n": if q { 2 } else { 3 }})).budget(b),
         PartSpec::new("rolling-summary", json!({"p": "s", "n": if q { 4 } else { 5 }})).budget(b),
+        PartSpec::new("summary-render", json!({"p": "sr", "n": if q { 3 } else { 4 }})).budget(b),
     ]
 }
 
@@ -440,6 +568,7 @@ fn run(ctx: &Ctx, spec: &PartSpec) -> PartResult {
         "hd" => hist_direct(ctx, &mut res, n),
         "hr" => hist_render(ctx, &mut res, n),
         "m" => matchers_part(ctx, &mut res, n),
+        "sr" => summary_render(ctx, &mut res, n),
         _ => summary_part(ctx, &mut res, n),
     });
     if let Err(e) = r {
